@@ -1,11 +1,16 @@
 #!/bin/sh
-# try_seed.sh <seeddir> <check-id>...: apply a seeded change to /repo, run the given quick checks, undo it.
+# try_seed.sh <seeddir> <check-id>...: run the given quick checks against a COPY of /repo's HEAD with the seeded change applied
+# (VERIF_ALT_REPO, see lib/vlib.py), so that /repo itself is never touched and other checks can run meanwhile.
+# The copy lives under /tmp and is removed afterwards.  (The registered commands never use this path.)
 SD=$1; shift
-cd /repo && git apply "$SD/patch.diff" || { echo "cannot apply"; exit 2; }
+N=$(basename "$SD")
+ALT=/tmp/alt-repo-$N
+rm -rf "$ALT"; mkdir -p "$ALT"
+git -C /repo archive HEAD | tar -x -C "$ALT" || exit 2
+( cd "$ALT" && git init -q . && git apply "$SD/patch.diff" ) || { echo "cannot apply"; rm -rf "$ALT"; exit 2; }
 cd /verif
 for c in "$@"; do
-  timeout 3000 bin/check "$c" > "/verif/work/seed_$(basename $SD)_$c.log" 2>&1; rc=$?
-  echo "$(basename $SD) check=$c rc=$rc violations=$(grep -c '^VIOLATION' /verif/work/seed_$(basename $SD)_$c.log) $(grep '^VIOLATION' /verif/work/seed_$(basename $SD)_$c.log | head -2 | tr '\n' ' ')"
+  VERIF_ALT_REPO="$ALT" timeout 3000 bin/check "$c" > "/verif/work/seed_${N}_$c.log" 2>&1; rc=$?
+  echo "$N check=$c rc=$rc violations=$(grep -c '^VIOLATION' /verif/work/seed_${N}_$c.log) $(grep '^VIOLATION' /verif/work/seed_${N}_$c.log | head -2 | tr '\n' ' ')"
 done
-git -C /repo checkout -- .
-git -C /repo status --short | grep -v '^??' 
+rm -rf "$ALT" "/verif/work/alt-$(printf %s "$ALT" | md5sum | cut -c1-8)"
